@@ -59,6 +59,7 @@ type cmdOutcome struct {
 	SendErr    error
 	SentAtStep int
 	FromIdx    int // number of responses parsed when the command started to be sent
+	LitWait    time.Duration // simulated time spent waiting for the answer to a synchronising literal announcement
 }
 
 // rawPeer is a scripted client that speaks raw bytes and behaves like a correct client where the
@@ -212,7 +213,9 @@ func (p *rawPeer) send(c *rawCmd, o *cmdOutcome) bool {
 				return false
 			}
 			pending = nil
+			t0 := time.Now()
 			rp, isCont, ok := p.waitTaggedOrCont(c.Tag, true)
+			o.LitWait = time.Since(t0)
 			if !ok {
 				o.Closed, o.TimedOut = p.eof, !p.eof
 				return false
